@@ -49,6 +49,11 @@ func VerifC16_Rebalance() {
 				// rounding step of one server of each group
 				nd.Assert(ri*L[i] <= rj*L[j]+L[j]+L[i], "order-preserved")
 			}
+			if ri > 1 && rj > 1 {
+				// shares follow the configured proportion: r_i*L_i : r_j*L_j ~ W_i : W_j, with one
+				// unit of integer truncation on each server weight (cross-multiplied, no division)
+				nd.Assert((ri-1)*L[i]*W[j] < (rj+2)*L[j]*W[i], "proportional")
+			}
 		}
 	}
 	if live > 0 {
